@@ -26,8 +26,13 @@ class CcBaseCompiler(BuildCommand):
     @memoize_method
     def _search_dirs(self, cpath=default_sentinel, strict=False):
         try:
-            extra_env = ({'CPATH': cpath or ''}
-                         if cpath is not default_sentinel else None)
+            extra_env = None
+            if cpath is not default_sentinel:
+                # The language-specific variables add to the search list just
+                # like `CPATH` does, so they have to be neutralized as well.
+                extra_env = {'CPATH': cpath or '', 'C_INCLUDE_PATH': '',
+                             'CPLUS_INCLUDE_PATH': '', 'OBJC_INCLUDE_PATH': '',
+                             'OBJCPLUS_INCLUDE_PATH': ''}
             output = self.env.execute(
                 (self.command + self._always_flags + self.global_flags +
                  ['-E', '-Wp,-v', '/dev/null']),
